@@ -473,7 +473,16 @@ func init() {
 			b = big.NewInt(1)
 		case 2:
 			f := h.valBits(r, 1+r.Intn(64))
+			if f.Sign() == 0 {
+				f = big.NewInt(6)
+			}
 			a, b = new(big.Int).Mul(a, f), new(big.Int).Mul(b, f)
+		}
+		if b.Sign() == 0 {
+			b = big.NewInt(1)
+		}
+		if d.Sign() == 0 {
+			d = big.NewInt(1)
 		}
 		return &tcase{args: []*big.Int{a, b, cc, d}}
 	}
